@@ -128,3 +128,10 @@ def extend(g, api):
                 raise Exception('Pacer::delay: tail shape changed: ' + n[:50])
         return 1
     g.nat('pacingTailShapeChecked', f'{pacing}::Pacer::delay tail (a wake-up instant is returned only when the delay is non-zero, as modelled in Recovery/Pacing.lean)', pacing_tail)
+
+    def discard_resets_pto():
+        body = api.strip_comments(api.fn_body(api.read(conn), 'discard_space'))
+        if not re.search(r'self\.remove_in_flight\(&packet\);\s*\}\s*self\.pto_count = 0;\s*self\.set_loss_detection_timer\(now\)', body, re.S):
+            raise Exception('discard_space: the PTO backoff is no longer reset with the discarded space (RFC 9002 A.4)')
+        return 1
+    g.nat('discardSpaceResetsPtoChecked', f'{conn}::Connection::discard_space resets pto_count before re-arming the loss detection timer', discard_resets_pto)
